@@ -1,18 +1,20 @@
 """C10 — primitive distance functions: feasibility, consistency, definedness."""
 from . import dist_common as DC
 
-FUNCTIONS = ["distance3d.distance." + f for f in DC.FUNCS]
+FUNCTIONS = ["distance3d.distance." + f for f in DC.FUNCS] + ["distance3d.distance.line_to_circle (closed-form branches only: lines through a point of the circle axis)"]
 OUTSIDE = DC.OUTSIDE_FUNCS
 STUBS = []
-BOUNDS = {"quick": "2 base primitive pairs x 11 one-parameter sweeps (translation along a line / rotation about an axis, t in [-3,3] resp. all angles but pi) per function; <=300 branch decisions per path",
+BOUNDS = {"quick": "2 base primitive pairs x 11 one-parameter sweeps (translation along a line / rotation about an axis, t in [-3,3] resp. all angles but pi) per function; <=300 branch decisions per path; line_to_circle: 3 circles x 8 rational directions, line through the axis point c + t*n, t in [-3,3]",
           "thorough": "all corpus pairs x 15 sweeps incl. 2-parameter translations"}
 WALL_BUDGET = {"quick": 300, "thorough": 600}
 EXPECTED_EXCEPTIONS = ()
 
 
 def make(family, args):
+    if family == "line_to_circle:axis":
+        return DC.AxisLineCircle("C10", args, "feas")
     return DC.DistScenario("C10", family, args["a"], args["b"], args["sweep"], "feas", args.get("move", "b"))
 
 
 def jobs(tier, seed):
-    return DC.make_jobs("C10", tier, seed)
+    return DC.make_jobs("C10", tier, seed) + DC.axis_line_jobs(tier)
